@@ -105,6 +105,45 @@ Theorem gc_delete_only_if_unlisted_strict_partial : forall (i : gc_in) ps name,
 Proof. exact gc_strict_unlisted_partial_l. Qed.
 Print Assumptions gc_delete_only_if_unlisted_strict_partial.
 
+(* The two snapshot reads of a pass are not atomic. For every trace of cluster states (any
+   environment events: a claim launching and registering, an instance appearing or terminating, ...)
+   and any read instants with the NodeClaim list served no later than the provider list (the code's
+   order): a deleted claim was observed Registered at [ti] and its instance was not listed live at
+   some instant at or AFTER that observation. *)
+Theorem gc_two_reads_absent_after_observed : forall (tr : nat -> gworld) ti tj nodes nf name,
+  (ti <= tj)%nat -> In name (fst (gc_pass tr ti tj nodes nf)) ->
+  exists c, In c (w_claims (tr ti)) /\ gc_name c = name /\ gc_registered c = true /\
+    exists t, (ti <= t)%nat /\ ~ In (gc_pid c) (live_ids (w_insts (tr t))).
+Proof. exact gc_pass_sound_l. Qed.
+Print Assumptions gc_two_reads_absent_after_observed.
+
+(* With the reads swapped (provider snapshot older than the NodeClaim snapshot) it is false: a claim
+   that launches and registers between the reads is deleted although the provider lists its instance
+   at every instant from its observation on. It holds again on a cluster that does not change. *)
+Theorem gc_swapped_reads_absent_after_observed_refuted :
+  exists (tr : nat -> gworld) ti tj nodes nf name, (tj < ti)%nat /\
+    In name (fst (gc_pass tr ti tj nodes nf)) /\
+    forall c, In c (w_claims (tr ti)) -> gc_name c = name ->
+      forall t, (ti <= t)%nat -> In (gc_pid c) (live_ids (w_insts (tr t))).
+Proof. exact gc_pass_swapped_refuted_l. Qed.
+Print Assumptions gc_swapped_reads_absent_after_observed_refuted.
+
+Theorem gc_swapped_reads_absent_after_observed_partial : forall w nodes nf,
+  gc2_swapped w w nodes nf = gc2 w w nodes nf.
+Proof. exact gc2_swapped_partial_l. Qed.
+Print Assumptions gc_swapped_reads_absent_after_observed_partial.
+
+(* the model of the code satisfies the two-read spec that the oracle evaluates; the swapped order does not *)
+Theorem gc_two_reads_spec : forall w0 w1 nodes nf,
+  gc2_holds ClaimsFirst w0 w1 nodes nf (fst (gc2 w0 w1 nodes nf)).
+Proof. exact gc2_sound. Qed.
+Print Assumptions gc_two_reads_spec.
+
+Theorem gc_two_reads_spec_swapped_refuted : exists w0 w1 nodes nf,
+  ~ gc2_holds ProviderFirst w0 w1 nodes nf (fst (gc2_swapped w0 w1 nodes nf)).
+Proof. exact gc2_swapped_refuted_l. Qed.
+Print Assumptions gc_two_reads_spec_swapped_refuted.
+
 (* ---------------------------------------------------------------- liveness *)
 
 (* A Delete is issued only if Registered is not True and either Launched is not True and has been
@@ -189,9 +228,10 @@ Print Assumptions reapers_history_justified.
 Theorem oracles_reflect_specs :
   (forall i n, exp_holds_b i n = true <-> exp_holds i n) /\
   (forall i d, gc_holds_b i d = true <-> gc_holds i d) /\
+  (forall o w0 w1 nodes nf d, gc2_holds_b o w0 w1 nodes nf d = true <-> gc2_holds o w0 w1 nodes nf d) /\
   (forall i n, lv_holds_b i n = true <-> lv_holds i n) /\
   (forall i n, rp_holds_b i n = true <-> rp_holds i n).
-Proof. exact (conj exp_holds_b_iff (conj gc_holds_b_iff (conj lv_holds_b_iff rp_holds_b_iff))). Qed.
+Proof. exact (conj exp_holds_b_iff (conj gc_holds_b_iff (conj gc2_holds_b_iff (conj lv_holds_b_iff rp_holds_b_iff)))). Qed.
 Print Assumptions oracles_reflect_specs.
 
 (* ---------------------------------------------------------------- non-vacuity *)
@@ -219,6 +259,19 @@ Proof.
   destruct (String.eqb_spec "p2" pid) as [E2|E2], (String.eqb_spec "p3" pid) as [E3|E3]; cbn [List.length]; try lia.
   exfalso. rewrite <- E3 in E2. discriminate E2.
 Qed.
+
+(* gc over a changing cluster: "gone" loses its instance between the reads and is deleted; "fresh"
+   launches between the reads and is not even observed by the code's order, while the swapped order
+   observes it against the stale provider snapshot and deletes it *)
+Definition w_before : gworld := mkGWorld [mkGClaim "gone" true true false "p0" AOk] [mkGInst "p0" false].
+Definition w_after : gworld :=
+  mkGWorld [mkGClaim "fresh" true true false "p1" AOk; mkGClaim "gone" true true false "p0" AOk] [mkGInst "p1" false].
+Example gc_two_reads_example :
+  fst (gc2 w_before w_after [mkGNode "p1" false] []) = ["gone"] /\
+  fst (gc2_swapped w_before w_after [mkGNode "p1" false] []) = ["fresh"] /\
+  gc2_holds_b ClaimsFirst w_before w_after [mkGNode "p1" false] [] ["gone"] = true /\
+  gc2_holds_b ProviderFirst w_before w_after [mkGNode "p1" false] [] ["fresh"] = false.
+Proof. vm_compute. repeat split; reflexivity. Qed.
 
 (* liveness: launch timeout elapsed exactly => one Delete; registration pending afterwards *)
 Example liveness_at_boundary :
